@@ -74,7 +74,7 @@ class SoftwareManager:
         :return: A list of all open ports on the Node.
         """
         open_ports = []
-        for software in self.port_protocol_mapping.values():
+        for software in self.software.values():
             if software.operating_state in {ApplicationOperatingState.RUNNING, ServiceOperatingState.RUNNING}:
                 open_ports.append(software.port)
                 if software.listen_on_ports:
